@@ -134,6 +134,10 @@ func (f *File) isValidAlias(alias string) bool {
 	if alias == "." {
 		return true
 	}
+	// the name C is taken by the "C" pseudo-package, which is never renamed
+	if alias == "C" {
+		return false
+	}
 	// the import alias is invalid if it's a reserved word
 	if IsReservedWord(alias) {
 		return false
